@@ -193,6 +193,31 @@ def make_subfn(frontend, framing, fc, sub):
     return subfn
 
 
+def make_nodata_second(frontend, framing, fc):
+    """a request consisting of the function code alone, arriving AFTER another request on the same connection (two
+    reads): two responses, in order, the second with the bare request's function code"""
+    def nodata2(t: bytes, u: int, b1: bytes) -> bool:
+        assume(len(t) == 4 and len(b1) == 4)
+        assume(1 <= u <= 247)
+        assume(b1[0] == 0 and b1[1] <= 3 and b1[2] == 0 and b1[3] == 1)
+        slave = SL.small_context()
+        ctx = SL.server_context(slave, single=True)
+        f1 = adu.ref_adu_clean(framing, bytes([3]) + b1, u, t[0:2])
+        f2 = adu.ref_adu_clean(framing, bytes([fc]), u, t[2:4])
+        r = SL.drive(frontend, framing, ctx, [f1, f2])
+        if r.escaped is not None or r.twisted_dropped is not None:
+            return False
+        if len(r.written) != 2:
+            explain("%d frames written for two requests (fc 3, then the bare fc %d)", len(r.written), fc)
+            return False
+        w = r.written[1]
+        pos = {"tcp": 7, "rtu": 1, "binary": 2}.get(framing)
+        if pos is None:
+            return True
+        return w[pos] == fc and (r.written[0][pos] == 3)
+    return nodata2
+
+
 class _Failing(object):
     """a datastore whose every access raises"""
     zero_mode = True
@@ -268,6 +293,10 @@ def obligations(tier):
             for sfc, sub in subs:
                 out.append(Obl("subfn.%s.%s.fc%d.sub%d" % (fe, fr, sfc, sub), make_subfn(fe, fr, sfc, sub), timeout=T, contracts=CONTRACTS[fr], lemmas=LEMMAS[fr],
                                bounds="%s front-end, %s framing: one request with function code %d, sub-function / MEI type %d, data symbolic: one response with the request's ids and function code" % (fe, fr, sfc, sub)))
+        if fe in ("sync-serial", "sync-tcp") or tier != "quick":
+            for nfc in ((7,) if tier == "quick" else (7, 11, 12, 17)):
+                out.append(Obl("nodata-second.%s.%s.fc%d" % (fe, fr, nfc), make_nodata_second(fe, fr, nfc), timeout=T, contracts=CONTRACTS[fr], lemmas=LEMMAS[fr],
+                               bounds="%s front-end, %s framing: an FC3 request, then (second read) a request that is the bare function code %d: two responses in order" % (fe, fr, nfc)))
         for nfc in ((7, 17) if tier == "quick" else (7, 11, 12, 17)):
             out.append(Obl("nodata.%s.%s.fc%d" % (fe, fr, nfc), make_nodata(fe, fr, nfc), timeout=T, contracts=CONTRACTS[fr], lemmas=LEMMAS[fr],
                            bounds="%s front-end, %s framing: a request that is the bare function code %d; tid and unit symbolic" % (fe, fr, nfc)))
